@@ -142,7 +142,7 @@ def replay_file(path: str, quiet=False) -> tuple[int, dict | None]:
             if not quiet:
                 print(f"VIOLATION property={prop} replay={path}")
             return (1 if same_digest or not exp.get("digest") else 3), res
-        return 3, res
+        return 4, res  # another oracle fired: not a reproduction
     if isinstance(res, dict) and "__harness__" in res:
         if not quiet:
             print("HARNESS-ERROR during replay:", json.dumps(res)[:2000])
@@ -208,6 +208,13 @@ def cmd_run(args) -> int:
             slim = {k: v for k, v in mr.items() if k not in ("draws", "spec", "stats")}
             path = write_replay(prop, tier, vseed, ms, slim, hs, original_spec=spec0, tried=tried)
             code, rres = replay_file(path, quiet=True)
+            if code == 3:
+                # same oracle, different event digest: replay once more - if the oracle fires again the violation is real and it is
+                # the *violating execution* that is not a function of the replay file (e.g. the changed code draws from OS entropy)
+                code2, _ = replay_file(path, quiet=True)
+                if code2 in (1, 3):
+                    print(f"  note: replays of {path} reproduce the violation {r['oracle']} but not the identical event digest (the violating behaviour itself is nondeterministic)")
+                    code = 1
             if code == 1:
                 print(f"  minimised after {tried} candidate runs: {mr.get('msg', '')[:600]}")
                 print(f"VIOLATION property={prop} replay={path}", flush=True)
@@ -290,7 +297,9 @@ def cmd_run(args) -> int:
 
 def cmd_replay(args) -> int:
     code, _ = replay_file(args.path)
-    return 1 if code == 1 else (0 if code == 0 else 2)
+    if code == 3:
+        print("note: the same violation fired, with a different event digest than recorded (the violating behaviour itself is nondeterministic)")
+    return 1 if code in (1, 3) else (0 if code == 0 else 2)
 
 
 def cmd_setup(args) -> int:
